@@ -376,6 +376,10 @@ RULES = [
 ]
 
 
+from . import shared
+RULES = RULES + shared.bundle('C05', ['carry', 'gate', 'restart', 'driver', 'values', 'stride', 'centre'], ['details', 'weights', 'direct_model'])
+
+
 def run(tier="quick", replay=None):
     return run_check(
         "C05", RULES, tier=tier, replay=replay,
